@@ -52,13 +52,13 @@ NOTES = {  # seed -> (detected_by, note) overriding / complementing the logged r
  'C19-2': ('NOT DETECTED', 'needs a pipe constructor that fails while returning a typed-nil (pty without /dev/ptmx, or a no_pipe_net build): no such failure can be provoked from the command alphabet'),
 }
 ROOT = '/verif'
-logs = ''.join(open(f).read() for f in sorted(glob.glob(f'{ROOT}/.work/seedrun-*.log')) + sorted(glob.glob(f'{ROOT}/.work/seed2run-*.log')))
+logs = ''.join(open(f).read() for f in sorted(glob.glob(f'{ROOT}/.work/seedrun-*.log')) + sorted(glob.glob(f'{ROOT}/.work/seed2run-*.log')) + sorted(glob.glob(f'{ROOT}/.work/seed5run-*.log')))
 seeds = {}
-def key(tag, pid, n): return f'{pid}-r2-{n}' if tag == '2' else f'{pid}-{n}'
-for m in re.finditer(r'SEED(2?) (C\d\d)-(\d) verify: (\{.*\})', logs):
+def key(tag, pid, n): return f'{pid}-r2-{n}' if tag == '2' else (f'{pid}-r4-{n}' if tag == '5' else f'{pid}-{n}')
+for m in re.finditer(r'SEED([25]?) (C\d\d)-(\d) verify: (\{.*\})', logs):
     try: seeds[key(m.group(1), m.group(2), m.group(3))] = {'verify': json.loads(m.group(4)), 'checks': []}
     except Exception: pass
-for m in re.finditer(r'SEED(2?) (C\d\d)-(\d) check (C\d\d) rc=(\d+) :: (.*?) :: (.*)', logs):
+for m in re.finditer(r'SEED([25]?) (C\d\d)-(\d) check (C\d\d) rc=(\d+) :: (.*?) :: (.*)', logs):
     k = key(m.group(1), m.group(2), m.group(3))
     seeds.setdefault(k, {'verify': None, 'checks': []})['checks'].append({'check': m.group(4), 'rc': int(m.group(5)), 'first': m.group(6).strip(), 'summary': m.group(7).strip()})
 EXCLUDE = {
@@ -73,7 +73,7 @@ rows = []
 for k in sorted(seeds):
     parts = k.split('-')
     pid, n = parts[0], parts[-1]
-    src = f'/tmp/seed2-{pid}-out/{n}' if '-r2-' in k else f'/tmp/seed-{pid}-out/{n}'
+    src = f'/tmp/seed2-{pid}-out/{n}' if '-r2-' in k else (f'/tmp/seed5-{pid}-out/{n}' if '-r4-' in k else f'/tmp/seed-{pid}-out/{n}')
     v = seeds[k]['verify']
     dst = f'{ROOT}/seeded/{k}'
     if not os.path.isdir(src):
@@ -96,7 +96,7 @@ for k in sorted(seeds):
     shutil.copy(f'{src}/patch.diff', dst); shutil.copytree(f'{src}/demo', f'{dst}/demo')
     meta = json.load(open(f'{src}/meta.json'))
     meta.update({'confirmed_by_lead': v, 'confirmation_method': 'scripts/seedverify.py in a scratch worktree of /repo HEAD', 'check_runs': seeds[k]['checks'], 'detected_by': det, 'detection_note': note,
-                 'how_to_rerun': f'scripts/with-mutant.sh seeded/{k}/patch.diff ./vcheck {pid} --tier quick', 'round': (2 if '-r2-' in k else 1)})
+                 'how_to_rerun': f'scripts/with-mutant.sh seeded/{k}/patch.diff ./vcheck {pid} --tier quick', 'round': (2 if '-r2-' in k else (4 if '-r4-' in k else 1))})
     json.dump(meta, open(f'{dst}/meta.json','w'), indent=1)
     rows.append((k, det))
 for k, d in rows: print(f'{k:7s} {d}')
